@@ -180,8 +180,9 @@ Scenarios ==
   \cup {[kind |-> "helo", local |-> <<97>>, setter |-> "To", form |-> "plain", helo |-> h, dsn |-> "off"] : h \in HELOS}
   \cup {[kind |-> "rawhelo", local |-> <<97>>, setter |-> "To", form |-> "plain", helo |-> h, dsn |-> "off"] : h \in HELOS}
   \* the smtp package used directly: Mail / Rcpt with a value that carries a line break
-  \cup {[kind |-> "rawaddr", local |-> <<97>>, setter |-> st, form |-> "plain", helo |-> h, dsn |-> "off"] :
-           h \in HELOS \cap {"plain", "cr", "lf", "crlf"}, st \in {"From", "To"}}
+  \* (with and without DSN options set on the smtp.Client: the commands take another format then)
+  \cup {[kind |-> "rawaddr", local |-> <<97>>, setter |-> st, form |-> "plain", helo |-> h, dsn |-> d] :
+           h \in HELOS \cap {"plain", "cr", "lf", "crlf"}, st \in {"From", "To"}, d \in {"off", "all"}}
   \* one smtp connection used by two mail.Clients with different DSN options, one after the other
   \cup {[kind |-> "dsnshare", local |-> <<97>>, setter |-> "To", form |-> "plain", helo |-> "plain", dsn |-> d] : d \in DSNS \cap {"never", "succfail", "all", "hdrs", "plain"}}
   \cup {[kind |-> "dsn", local |-> <<97>>, setter |-> "To", form |-> "plain", helo |-> "plain", dsn |-> d] : d \in DSNS}
